@@ -21,7 +21,14 @@ class Boom(Exception):
     pass
 
 
-def build(op, n, fail, policy, via_config, errorvalue, lazy=False):
+# exception classes the converters / mappers raise: a user-defined one and the built-in "data error" classes a
+# maintainer might be tempted to special-case
+EXCS = [Boom, KeyError, ValueError, TypeError, IndexError, AttributeError, LookupError, ZeroDivisionError, RuntimeError,
+        AssertionError, ArithmeticError, UnicodeError, OSError]
+ALLEXC = tuple(EXCS)
+
+
+def build(op, n, fail, policy, via_config, errorvalue, lazy=False, exc=Boom, skip=(), where_form='callable'):
     """Returns (view, describe). Rows are (r, 10r+1, 10r+2); fields a, b are converted."""
     import petl as etl
     import petl.config
@@ -32,7 +39,7 @@ def build(op, n, fail, policy, via_config, errorvalue, lazy=False):
         def g(v):
             r = v // 10
             if (r, f) in fail:
-                raise Boom(r, f)
+                raise exc(r, f)
             return ('ok', v)
         return g
     kw = {}
@@ -45,6 +52,12 @@ def build(op, n, fail, policy, via_config, errorvalue, lazy=False):
         if op == 'convert':
             if errorvalue is not None:
                 kw['errorvalue'] = errorvalue
+            if skip:
+                sk = set(skip)
+                if where_form == 'callable':
+                    kw['where'] = lambda row: row[0] not in sk
+                else:
+                    kw['where'] = '{r} not in %r' % (sorted(sk),)
             v = etl.convert(t, {'a': conv(1), 'b': conv(2)}, **kw)
         elif op == 'fieldmap':
             if errorvalue is not None:
@@ -69,10 +82,12 @@ def build(op, n, fail, policy, via_config, errorvalue, lazy=False):
 def abstract_item(op, row, errorvalue, current_row):
     """Project a delivered row to the spec's item."""
     def cell(c, f, r):
-        if isinstance(c, Boom):
+        if isinstance(c, BaseException):
             return 'exc' if c.args == (r, f) else 'exc-wrong'
         if c == ('ok', 10 * r + f):
             return 'ok'
+        if c == 10 * r + f:
+            return 'raw'
         if c == errorvalue or (errorvalue is None and c is None):
             return 'errorvalue'
         return 'other:%r' % (c,)
@@ -80,11 +95,11 @@ def abstract_item(op, row, errorvalue, current_row):
     if op in ('convert', 'fieldmap'):
         return [row[0], cell(row[1], 1, row[0]), cell(row[2], 2, row[0])]
     if op == 'rowmap':
-        if len(row) == 1 and isinstance(row[0], Boom):
+        if len(row) == 1 and isinstance(row[0], BaseException):
             return [row[0].args[0], 'exc']
         ok = row[1] == ('ok', 10 * row[0] + 1) and row[2] == ('ok', 10 * row[0] + 2)
         return [row[0], 'ok' if ok else 'other']
-    if len(row) == 1 and isinstance(row[0], Boom):
+    if len(row) == 1 and isinstance(row[0], BaseException):
         return [row[0].args[0], row[0].args[1], 'exc']
     return [row[0], row[1], 'ok' if row[2] == ('ok', 10 * row[0] + row[1]) else 'other']
 
@@ -99,7 +114,9 @@ def iterate(op, v, n, errorvalue):
             row = next(it)
         except StopIteration:
             break
-        except Boom:
+        except ALLEXC as e:
+            if len(e.args) != 2:
+                raise
             raised = True
             break
         items.append(abstract_item(op, row, errorvalue, None))
@@ -116,21 +133,24 @@ def iterate(op, v, n, errorvalue):
     return items, raised, after
 
 
-def check_case(chk, case, via_config, errorvalue, lazy=False):
+def check_case(chk, case, via_config, errorvalue, lazy=False, exc=Boom, where_form='callable'):
     op = case['op']
     try:
-        v = build(op, case['n'], case['fail'], case['policy'], via_config, errorvalue, lazy)
+        v = build(op, case['n'], case['fail'], case['policy'], via_config, errorvalue, lazy, exc, case.get('skip', ()), where_form)
         items, raised, after = iterate(op, v, case['n'], errorvalue)
         items2, raised2, _ = iterate(op, v, case['n'], errorvalue)        # second pass: same outcome
     except Exception as e:
         items, raised, after, items2, raised2 = 'harness-visible exception %r' % (e,), None, None, None, None
     want = [list(x) for x in case['out']]
-    what = '%s policy=%s (%s) errorvalue=%r n=%d failing=%r' % (op, case['policy'], 'config default' if via_config else 'argument',
-                                                               errorvalue, case['n'], case['fail'])
+    what = '%s policy=%s (%s) errorvalue=%r n=%d failing=%r%s%s' % (op, case['policy'], 'config default' if via_config else 'argument',
+                                                                   errorvalue, case['n'], case['fail'],
+                                                                   ' where excludes rows %r (%s)' % (case['skip'], where_form) if case.get('skip') else '',
+                                                                   '' if exc is Boom else ' raising %s' % exc.__name__)
     if items != want or raised != case['raised']:
         chk.violation({'op': op, 'policy': case['policy'], 'via': 'config' if via_config else 'arg'},
                       '%s: delivered %r raised=%s, spec %r raised=%s' % (what, items, raised, want, case['raised']),
-                      {'kind': 'case', 'case': case, 'via_config': via_config, 'errorvalue': errorvalue})
+                      {'kind': 'case', 'case': case, 'via_config': via_config, 'errorvalue': errorvalue, 'lazy': lazy,
+                       'exc': exc.__name__, 'where_form': where_form})
     elif (items2, raised2) != (items, raised):
         chk.violation({'op': op, 'policy': case['policy'], 'via': 'second-pass'},
                       '%s: second pass delivered %r raised=%s, first pass %r raised=%s' % (what, items2, raised2, items, raised),
@@ -150,7 +170,10 @@ def record_traces(n, seed):
         policy = rng.choice(['false', 'true', 'inline'])
         via_config = rng.random() < 0.5
         ev = rng.choice([None, 'ERR', -1])
-        v = build(op, nrows, fail, policy, via_config, ev if op in ('convert', 'fieldmap') else None)
+        exc = rng.choice(EXCS)
+        skip = sorted(r for r in range(1, nrows + 1) if rng.random() < 0.3) if op == 'convert' and rng.random() < 0.5 else []
+        v = build(op, nrows, fail, policy, via_config, ev if op in ('convert', 'fieldmap') else None, exc=exc, skip=skip,
+                  where_form=rng.choice(['callable', 'expression']))
         it = iter(v)
         next(it)
         per_row = {}
@@ -162,7 +185,9 @@ def record_traces(n, seed):
                 row = next(it)
             except StopIteration:
                 break
-            except Boom as e:
+            except ALLEXC as e:
+                if len(e.args) != 2:
+                    raise
                 raised_at = e.args[0]
                 break
             item = abstract_item(op, row, ev if op in ('convert', 'fieldmap') else None, None)
@@ -170,7 +195,7 @@ def record_traces(n, seed):
         last = raised_at if raised_at is not None else nrows
         events = [{'items': per_row.get(r, []), 'raised': r == raised_at} for r in range(1, last + 1)]
         traces.append({'n': nrows, 'fail': [list(c) for c in fail], 'policy': policy, 'op': op, 'events': events,
-                       'via_config': via_config})
+                       'via_config': via_config, 'skip': skip, 'exc': exc.__name__})
     return traces
 
 
@@ -215,6 +240,16 @@ def run(tier, seed):
                 check_case(chk, case, via_config, ev)
                 chk.count(('case', ci, via_config, ev))
                 chk.replayed += 1
+                if case['fail']:
+                    # the same behaviour with a built-in exception class (rotating; all of them in the thorough tier)
+                    for ex in (EXCS[1:] if full else [EXCS[1 + (ci + (7 if via_config else 0)) % (len(EXCS) - 1)]]):
+                        check_case(chk, case, via_config, ev, exc=ex)
+                        chk.count(('case-exc', ci, via_config, ev, ex.__name__))
+                        chk.replayed += 1
+                if case.get('skip'):
+                    check_case(chk, case, via_config, ev, where_form='expression')
+                    chk.count(('case-where-expr', ci, via_config, ev))
+                    chk.replayed += 1
                 if case['op'] == 'rowmap':
                     check_case(chk, case, via_config, ev, lazy=True)
                     chk.count(('case-lazy', ci, via_config))
@@ -236,5 +271,6 @@ def replay(path):
         print('trace replay: rerun ./check C19 with VERIF_SEED=%s' % rp['seed'])
         return 0
     chk = Check(PID, 'quick', 0)
-    check_case(chk, rp['case'], rp['via_config'], rp['errorvalue'])
+    exc = [e for e in EXCS if e.__name__ == rp.get('exc', 'Boom')][0]
+    check_case(chk, rp['case'], rp['via_config'], rp['errorvalue'], rp.get('lazy', False), exc, rp.get('where_form', 'callable'))
     return 1 if chk.violations else 0
